@@ -128,7 +128,8 @@ impl<'a> ArxmlLexer<'a> {
         debug_assert!(endpos > self.bufpos + 1);
         debug_assert!(self.buffer[self.bufpos] == b'<');
 
-        if self.buffer[endpos - 1] != b'?' {
+        // the closing '?' must not be the same character as the opening one, i.e. "<?>" is invalid
+        if endpos < self.bufpos + 3 || self.buffer[endpos - 1] != b'?' {
             return Some(Err(self.error(ArxmlLexerError::InvalidProcessingInstruction)));
         }
 
